@@ -28,6 +28,7 @@ import fcntl
 import os as _os
 import select as _select
 import socket as _socket
+import struct
 import termios
 import time as _time
 import tty
@@ -81,6 +82,7 @@ class Sim(object):
         self.child_reaped = False
         self.pending_eintr = False
         self.written = b''              # everything the peer has put on the wire so far
+        self.pty_in = self.pty_out = 0  # bytes written on the slave side / read from the master side
         self.kills = []
         self.waits_blocking = 0
         self.sock_proxy = None
@@ -177,8 +179,26 @@ class Sim(object):
             if n <= 0:
                 break
             self.pending_out = self.pending_out[n:]
+            if self.kind == 'pty':
+                self.pty_in += n
+                self._pty_settle()
         if self.close_requested and not self.pending_out:
             self._close_peer()
+
+    def _pty_settle(self):
+        # the kernel moves what the slave side wrote to the master's queue from a worker, not inside write():
+        # on a busy machine a zero-timeout select() straight after the write can still say "nothing there", which
+        # in virtual time would look like text that arrived late.  Wait (real time, bounded) until it is there.
+        want = min(self.pty_in - self.pty_out, 2048)
+        t_end = _time.time() + 2.0
+        while want > 0 and _time.time() < t_end:
+            try:
+                have = struct.unpack('i', fcntl.ioctl(self.reader_fd, termios.FIONREAD, b'\0\0\0\0'))[0]
+            except (OSError, ValueError):
+                return
+            if have >= want:
+                return
+            _time.sleep(0.0002)
 
     def _close_peer(self):
         if self.peer_closed:
@@ -382,7 +402,9 @@ class OsProxy(object):
                 # a read on a descriptor that is not ready would block the process
                 sim.wait('read', lambda: sim._real_ready([fd]), None, eintr=False)
             try:
-                return _os.read(fd, n)
+                data = _os.read(fd, n)
+                sim.pty_out += len(data)
+                return data
             finally:
                 sim.flush_pending()
         return _os.read(fd, n)
